@@ -40,9 +40,9 @@ svars == <<pos, divs, mstart, maxpos, lastOn, open, notes, measures, attrs, rope
 
 Zero == <<0, 1>>
 RMax(a, b) == IF RLess(a, b) THEN b ELSE a
-Q(d) == R(d, divs)                       \* a duration in divisions as quarters
+Q(d) == R(d, IF divs < 1 THEN 1 ELSE divs)     \* a duration in divisions as quarters (divs = 0: none declared yet)
 PitchKey(e) == <<e.step, e.alter, e.octave>>
-SInit == /\ pos = Zero /\ divs = 1 /\ mstart = Zero /\ maxpos = Zero /\ lastOn = Zero
+SInit == /\ pos = Zero /\ divs = 0 /\ mstart = Zero /\ maxpos = Zero /\ lastOn = Zero
          /\ open = <<>> /\ notes = <<>> /\ measures = <<>> /\ attrs = <<>> /\ ropen = <<>> /\ rclosed = <<>> /\ bad = {}
 
 OpenIdx(k) == IF \E i \in 1..Len(open) : open[i][1] = k THEN (CHOOSE i \in 1..Len(open) : open[i][1] = k) ELSE 0
@@ -98,6 +98,7 @@ Note(e) ==
       /\ bad' = bad \cup rg[3] \cup (IF stopOk THEN {} ELSE {"tie_stop_without_start"})
                     \cup (IF startClash THEN {"tie_start_while_same_pitch_open"} ELSE {})
                     \cup (IF e.chord = 1 /\ Len(notes) = 0 THEN {"chord_without_previous_note"} ELSE {})
+                    \cup (IF divs < 1 /\ e.grace = 0 THEN {"duration_before_any_divisions"} ELSE {})
                     \cup (IF prev # 0 /\ ~REq(RAdd(notes[prev].on, notes[prev].dur), on) THEN {"tie_across_a_gap"} ELSE {})
       /\ UNCHANGED <<divs, mstart, measures, attrs>>
 Backup(e) ==
